@@ -108,6 +108,41 @@ def check_vector(v):
                 if o != ("ok", expc):
                     bad.append({"what": "count_kmers differs from the number of windows per k-mer", "tags": dict(tags, op="count_kmers"),
                                 "vector": v, "case": {"texts": texts, "k": k}, "expected": str(expc), "observed": str(o)[:300]})
+            if A ** k <= 5000 and expc:
+                # the read-out paths of the counts (by label, as a dictionary, per row) and the way back from k-mer text to its code
+                from bionumpy.encodings.kmer_encodings import KmerEncoding
+                lab = lambda km: "".join(alpha[d] for d in km)
+
+                def readout():
+                    ec = count_kmers(seqs, k)
+                    d_ = {str(kk): int(vv) for kk, vv in ec.as_dict().items() if int(vv)}
+                    by_label = {lab(km): int(ec[lab(km)]) for km in expc}
+                    return d_, by_label
+                o = outcome(readout)
+                n += 1
+                wl = {lab(km): c for km, c in expc.items()}
+                if o != ("ok", (wl, wl)):
+                    bad.append({"what": "k-mer counts read out by label / as a dictionary differ from the counts", "tags": dict(tags, op="count_kmers-readout"),
+                                "vector": v, "case": {"texts": texts, "k": k}, "expected": str(wl), "observed": str(o)[:300]})
+                if not view and len(rows) >= 2 and all(len(r) >= k for r in rows):
+                    def per_row():
+                        ec = count_kmers(seqs, k, axis=-1)
+                        d_ = {str(kk): [int(x) for x in np.asarray(vv).tolist()] for kk, vv in ec.as_dict().items() if np.any(vv)}
+                        m_ = [[int(x) for x in row] for row in np.asarray(ec.counts).tolist()]
+                        return d_, {(j, lab(km)): m_[j][ec.alphabet.index(lab(km))] for j in range(len(rows)) for km in expc}
+                    rc = [{tuple(mapw(km)): c for km, c in row} for row in v["rowcounts"][k - 1]]
+                    wd = {lab(km): [rc[j].get(km, 0) for j in range(len(rows))] for km in expc}
+                    wm = {(j, lab(km)): rc[j].get(km, 0) for j in range(len(rows)) for km in expc}
+                    o = outcome(per_row)
+                    n += 1
+                    if o != ("ok", (wd, wm)):
+                        bad.append({"what": "per-row k-mer counts (axis=-1) read as a matrix / as a dictionary differ from the counts of each row", "tags": dict(tags, op="count_kmers-per-row"),
+                                    "vector": v, "case": {"texts": texts, "k": k}, "expected": str(wd), "observed": str(o)[:300]})
+                o = outcome(lambda: [_digits(c, k, A) for c in np.atleast_1d(bnp.as_encoded_array([lab(km) for km in expc], KmerEncoding(_enc(alpha), k)).raw()).tolist()])
+                n += 1
+                if o != ("ok", [list(km) for km in expc]):
+                    bad.append({"what": "k-mer texts encoded as a list do not get the code of their letters", "tags": dict(tags, op="kmer-text-to-code"),
+                                "vector": v, "case": {"kmers": [lab(km) for km in expc], "k": k}, "expected": [list(km) for km in expc], "observed": str(o)[:300]})
             # the same collection repeated until it holds more than a million windows (MC_C13!CountsOfRepeat: m times the counts)
             nwin = sum(expc.values())
             if v.get("_big") and ai == 0 and not view and k == 2 and nwin >= 3:
